@@ -18,7 +18,7 @@ PROPS['C01'] = dict(
         dict(name='sweep', variant='asan', harness='c01_music.cpp', quick=8000, thorough=8000, opts=dict(files=4)),
         dict(name='sweep-all', variant='asan', harness='c01_music.cpp', quick=0, thorough=24000, opts=dict(files=12)),
         dict(name='fuzz-nd', variant='asan-nd', harness='c01_music.cpp', quick=0, thorough=100000),
-        dict(name='memcheck', variant='plain-d', harness='c01_music.cpp', quick=800, thorough=12000, budget=1200, wall=3000,
+        dict(name='memcheck', variant='plain-d', harness='c01_music.cpp', quick=800, thorough=12000, budget=150, wall=2400,
              wrapper=['valgrind', '-q', '--error-exitcode=79', '--exit-on-first-error=yes', '--track-origins=no', '--leak-check=no']),
     ],
 )
